@@ -29,6 +29,13 @@ import (
 
 var fset = token.NewFileSet()
 
+// problems: modelled function bodies that changed shape.  They are a BROKEN TIE (exit 1), but the Gen file is
+// still written with everything that could be read, so that the model driver keeps building and the
+// correspondence run / property oracles can still produce a concrete failing input.
+var problems []string
+
+func problem(f string, a ...any) { problems = append(problems, fmt.Sprintf(f, a...)) }
+
 func die(f string, a ...any) {
 	fmt.Fprintf(os.Stderr, "c33 translator: BROKEN TIE: "+f+"\n", a...)
 	os.Exit(1)
@@ -56,6 +63,22 @@ func funcDecl(f *ast.File, name string) *ast.FuncDecl {
 	}
 	die("function %s not found", name)
 	return nil
+}
+
+func funcDeclOpt(f *ast.File, name string) *ast.FuncDecl {
+	for _, d := range f.Decls {
+		if fd, ok := d.(*ast.FuncDecl); ok && fd.Name.Name == name {
+			return fd
+		}
+	}
+	return nil
+}
+
+func orders0(o []string) string {
+	if len(o) > 0 {
+		return o[0]
+	}
+	return "?"
 }
 
 func intLit(e ast.Expr) (int64, bool) {
@@ -168,17 +191,20 @@ func main() {
 	// ---- consistenthash.go -------------------------------------------------
 	hf := parse(repo, "felix/bpf/consistenthash/consistenthash.go")
 	hfs := funcDecl(hf, "hashFromString")
-	order, resType := "", ""
+	// The byte order is read from either call shape:
+	//   binary.Read(reader, binary.<Order>, &result)      (result's declared type gives the width)
+	//   binary.<Order>.Uint32(sum) / .Uint16 / .Uint64
+	var orders []string
+	resType := ""
 	ast.Inspect(hfs, func(n ast.Node) bool {
 		switch x := n.(type) {
 		case *ast.CallExpr:
 			if str(x.Fun) == "binary.Read" && len(x.Args) == 3 {
-				if order != "" {
-					die("more than one binary.Read in hashFromString")
-				}
-				order = str(x.Args[1])
-				if str(x.Args[2]) != "&result" {
-					die("binary.Read target is %s", str(x.Args[2]))
+				orders = append(orders, str(x.Args[1]))
+			} else if m := regexp.MustCompile(`^(binary\.\w+)\.(Uint16|Uint32|Uint64)$`).FindStringSubmatch(str(x.Fun)); m != nil {
+				orders = append(orders, m[1])
+				if resType == "" {
+					resType = strings.ToLower(m[2])
 				}
 			}
 		case *ast.ValueSpec:
@@ -188,34 +214,42 @@ func main() {
 		}
 		return true
 	})
-	srcOrder := map[string]string{"binary.LittleEndian": "littleEndian", "binary.BigEndian": "bigEndian", "binary.NativeEndian": "nativeEndian"}[order]
-	if srcOrder == "" {
-		die("hashFromString: byte order expression %q not recognised", order)
+	order, srcOrder := "", ""
+	known := map[string]string{"binary.LittleEndian": "littleEndian", "binary.BigEndian": "bigEndian", "binary.NativeEndian": "nativeEndian"}
+	switch {
+	case len(orders) == 1 && known[orders[0]] != "":
+		order, srcOrder = orders[0], known[orders[0]]
+	default:
+		// unreadable: conservatively the CPU-dependent one, so that arch_independent cannot be proved by accident
+		order, srcOrder = "UNREADABLE (found "+strings.Join(orders, ",")+"), conservatively binary.NativeEndian", "nativeEndian"
+		problem("hashFromString: cannot read the byte order (found %v)", orders)
 	}
 	if resType != "uint32" {
-		die("hashFromString: result type is %q, model assumes uint32", resType)
+		problem("hashFromString: decoded width is %q, model assumes uint32", resType)
 	}
-	wantHF := "{ reinitHash(h, seed) h.Write([]byte(s)) sum := h.Sum(nil) reader := bytes.NewReader(sum) var result uint32 err := binary.Read(reader, " + order + ", &result) if err != nil { return 0, err } return int(result), nil }"
+	wantHF := "{ reinitHash(h, seed) h.Write([]byte(s)) sum := h.Sum(nil) reader := bytes.NewReader(sum) var result uint32 err := binary.Read(reader, " + orders0(orders) + ", &result) if err != nil { return 0, err } return int(result), nil }"
 	if got := str(hfs.Body); got != wantHF {
-		die("hashFromString body changed: %s", got)
+		problem("hashFromString body changed (byte order read as %s): %s", order, got)
 	}
-	if got := str(funcDecl(hf, "reinitHash").Body); got != "{ h.Reset() h.Write(seed) }" {
-		die("reinitHash body changed: %s", got)
+	if rh := funcDeclOpt(hf, "reinitHash"); rh == nil {
+		problem("reinitHash is gone: the model resets the hash (h.Reset(); h.Write(seed)) before every hashFromString")
+	} else if got := str(rh.Body); got != "{ h.Reset() h.Write(seed) }" {
+		problem("reinitHash body changed: %s", got)
 	}
 	wantOS := "{ offset, err := hashFromString(s, ch.h1, []byte{0}) if err != nil { return 0, 0, err } skip, err := hashFromString(s, ch.h2, []byte{0xa}) if err != nil { return 0, 0, err } return (offset % ch.m), (skip % (ch.m - 1)) + 1, nil }"
 	if got := str(funcDecl(hf, "offsetAndSKip").Body); got != wantOS {
-		die("offsetAndSKip body changed: %s", got)
+		problem("offsetAndSKip body changed: %s", got)
 	}
 	permBody := str(funcDecl(hf, "permutation").Body)
 	if !strings.Contains(permBody, "permutation := make([]int, ch.m) for j := range ch.m { permutation[j] = (offset + (j * skip)) % ch.m } return permutation, nil") {
-		die("permutation body changed: %s", permBody)
+		problem("permutation body changed: %s", permBody)
 	}
 
 	// ---- syncer.go ---------------------------------------------------------
 	sf := parse(repo, "felix/bpf/proxy/syncer.go")
 	nch := str(funcDecl(sf, "newConsistentHash").Body)
 	if nch != "{ return consistenthash.New( s.maglevLUTSize, fnv.New32(), fnv.New32(), ) }" && nch != "{ return consistenthash.New(s.maglevLUTSize, fnv.New32(), fnv.New32()) }" {
-		die("newConsistentHash no longer passes fnv.New32(), fnv.New32(): %s", nch)
+		problem("newConsistentHash no longer passes fnv.New32(), fnv.New32(): %s", nch)
 	}
 
 	// ---- emit ----------------------------------------------------------------
@@ -246,5 +280,11 @@ func main() {
 	b.WriteString("\nend CalicoVerif.C33.Gen\n")
 	if err := os.WriteFile(out, []byte(b.String()), 0o644); err != nil {
 		die("write %s: %v", out, err)
+	}
+	if len(problems) > 0 {
+		for _, p := range problems {
+			fmt.Fprintf(os.Stderr, "c33 translator: BROKEN TIE: %s\n", p)
+		}
+		os.Exit(1)
 	}
 }
